@@ -359,3 +359,46 @@ pub fn literal_spelling_programs() -> Vec<String> {
     }
     out
 }
+
+/// functions declared to return a value whose body can be left without executing a `return`:
+/// every `return` sits inside a construct that may not run. The checker must reject them, or the
+/// call must still yield a value of the declared type.
+pub fn missing_return_programs() -> Vec<String> {
+    let constructs = [
+        "while c { return 1; }",
+        "loop { if c { return 1; }; break; }",
+        "for x in [1]~ { if c { return 1; } }",
+        "k := mut 0; while x: int = src(k) { if c { return 1; }; k += 1; }",
+        "if c { return 1; }",
+        "if c { return 1; } else { }",
+        "if x: int = w { return x; }",
+        "match w { x: int => { return x; }, => { }, }",
+        "match c { true => { return 1; }, => { }, }",
+        "{ if c { return 1; } }",
+        "m := mod { if c { return 1; }; }",
+        "g := () -> int { return 1; }",
+        "[1]~ @ (x: int) -> int { return x; } $]",
+        "while c { return 1; }; loop { break; }",
+        "loop { break; }",
+        "while false { }",
+        "for x in [1]~ { }",
+    ];
+    let uses = ["f(false, \"s\") + 1", "[f(false, \"s\")][0] * 2", "f(false, \"s\")", "f(true, 5)"];
+    let src = "src := (k: mut int) -> int|string { if *k < 1 { return *k; } return \"end\"; }; ";
+    let mut out = vec![];
+    for c in constructs {
+        for u in uses {
+            out.push(format!("{src}f := (c: bool, w: int|string) -> int {{ {c}; }}; {u}"));
+            out.push(format!("{src}f := (c: bool, w: int|string) -> int {{ {c} }}; {u}"));
+            out.push(format!("{src}f := (c: bool, w: int|string) -> int {{ y := 2; {c}; y }}; {u}"));
+        }
+        out.push(format!("{src}f := (c: bool, w: int|string) -> string {{ {c}; }}; f(false, \"s\") + \"!\""));
+        out.push(format!("{src}f := (c: bool, w: int|string) -> [int] {{ {c}; }}; f(false, \"s\") + [1]"));
+    }
+    // a bare `return` where a value is promised
+    for t in ["int", "string", "[int]", "(int, int)"] {
+        out.push(format!("f := (c: bool) -> {t} {{ if c {{ return; }}; return f(true); }}; f(false)"));
+        out.push(format!("f := (c: bool) -> {t} {{ return; }}; f(false)"));
+    }
+    out
+}
